@@ -1536,8 +1536,8 @@ func (e *CoreExtension) filterReverse(value interface{}, args ...interface{}) (i
 		}
 		return string(runes), nil
 	case reflect.Array, reflect.Slice:
-		// Create a new slice with the same type
-		resultSlice := reflect.MakeSlice(rv.Type(), rv.Len(), rv.Len())
+		// Create a new slice of the same element type (the value itself may be an array)
+		resultSlice := reflect.MakeSlice(reflect.SliceOf(rv.Type().Elem()), rv.Len(), rv.Len())
 		for i, j := 0, rv.Len()-1; j >= 0; i, j = i+1, j-1 {
 			resultSlice.Index(i).Set(rv.Index(j))
 		}
@@ -1824,7 +1824,8 @@ func (e *CoreExtension) filterSort(value interface{}, args ...interface{}) (inte
 	// Try reflection for other types
 	rv := reflect.ValueOf(value)
 	if rv.Kind() == reflect.Slice || rv.Kind() == reflect.Array {
-		result := reflect.MakeSlice(rv.Type(), rv.Len(), rv.Len())
+		// A new slice of the same element type (the value itself may be an array)
+		result := reflect.MakeSlice(reflect.SliceOf(rv.Type().Elem()), rv.Len(), rv.Len())
 		for i := 0; i < rv.Len(); i++ {
 			result.Index(i).Set(rv.Index(i))
 		}
